@@ -21,6 +21,7 @@ import (
 func init() {
 	cli.Register("c16-keepalive", keepaliveCmd)
 	cli.Register("c16-blackhole", blackholeCmd)
+	cli.Register("c16-largeset", largesetCmd)
 }
 
 // The silent kind of stream failure (Discovery.tla SilentFail / KeepaliveDetect).  Here the client is
@@ -37,8 +38,13 @@ type realWorld struct {
 }
 
 func newRealWorld(initialDeps []string) (*realWorld, error) {
+	return newRealWorldChunked(initialDeps, 0)
+}
+
+func newRealWorldChunked(initialDeps []string, depChunk int) (*realWorld, error) {
 	srv := newE2EServer()
 	srv.accept = true
+	srv.depChunk = depChunk
 	for _, d := range initialDeps {
 		srv.deps[d] = true
 	}
@@ -281,6 +287,107 @@ func blackholeCmd(args []string) error {
 		o := (&session{f: f}).evalLocked() // no newer stream: nothing is subscribed anywhere the server can see
 		o.Streams = n
 		o.Trace = []event{}
+		res.Clients[scope] = o
+	}
+	w.srv.mu.Unlock()
+	return wr.Write(res)
+}
+
+// ---- a large dependency set through the production dial path
+
+type largeResult struct {
+	Name         string             `json:"name"`
+	Services     int                `json:"services"`
+	NameBytes    int                `json:"nameBytes"` // bytes of names in the resubscription request
+	DeadlineS    float64            `json:"deadline_s"`
+	FirstUp      bool               `json:"firstUp"`
+	Recovered    bool               `json:"recovered"`
+	ElapsedS     float64            `json:"elapsed_s"`
+	StreamsAfter map[string]int     `json:"streamsAfter"`
+	Clients      map[string]outcome `json:"clients"`
+	Err          string             `json:"err,omitempty"`
+}
+
+// longNames are service names of the kind a service registry holds.
+func longNames(n int) []string {
+	envs := []string{"production", "staging", "canary"}
+	teams := []string{"payment-gateway", "order-fulfilment", "customer-profile", "search-indexer", "notification-dispatcher", "inventory-ledger"}
+	kinds := []string{"redis-cluster", "redis-cache", "mysql-proxy", "session-store"}
+	out := make([]string, 0, n)
+	for i := 0; i < n; i++ {
+		out = append(out, fmt.Sprintf("%s.%s.%s.shard-%04d.svc.dc-%d.example.internal",
+			envs[i%len(envs)], teams[(i/3)%len(teams)], kinds[(i/7)%len(kinds)], i, 1+i%4))
+	}
+	return out
+}
+
+// largesetCmd: the production client (config.New -> initDiscoveryClient -> grpc.Dial with the production
+// options) learns a large dependency set; the server then ends the service streams once.  The next
+// streams must carry exactly the set: the resubscription is ONE request naming every service.
+func largesetCmd(args []string) error {
+	fs := flag.NewFlagSet("c16-largeset", flag.ContinueOnError)
+	out := fs.String("out", "", "result (ndjson)")
+	n := fs.Int("n", 1500, "services")
+	dl := fs.Duration("deadline", 10*time.Second, "deadline for the new streams to carry the set")
+	confirm := fs.Duration("confirm", 25*time.Second, "how long to keep waiting before 'never' is reported")
+	if err := fs.Parse(args); err != nil {
+		return err
+	}
+	res := largeResult{Name: fmt.Sprintf("large-set/%d-services-service-streams-ended-once", *n), Services: *n, DeadlineS: dl.Seconds(),
+		Clients: map[string]outcome{}, StreamsAfter: map[string]int{}}
+	wr, err := cli.NewNDJSONWriter(*out)
+	if err != nil {
+		return err
+	}
+	defer wr.Close()
+	deps := longNames(*n)
+	for _, d := range deps {
+		res.NameBytes += len(d)
+	}
+	// the dependencies arrive in responses of 40 services (3 KB each): what is examined is the request
+	// that resubscribes all of them at once
+	w, err := newRealWorldChunked(deps, 40)
+	if err != nil {
+		return err
+	}
+	defer w.close()
+	res.FirstUp = w.waitCarries(map[string]int{"config": 0, "endpoint": 0}, 30*time.Second)
+	if !res.FirstUp {
+		res.Err = "the first streams never carried the dependency set (incremental requests)"
+		return wr.Write(res)
+	}
+	w.srv.mu.Lock()
+	before := map[string]int{}
+	for _, scope := range []string{"config", "endpoint"} {
+		before[scope], _, _ = w.scopeLocked(scope)
+	}
+	w.srv.mu.Unlock()
+	w.srv.killSvcStreams()
+	start := time.Now()
+	wait := *dl
+	if *confirm > wait {
+		wait = *confirm
+	}
+	res.Recovered = w.waitCarries(before, wait)
+	res.ElapsedS = time.Since(start).Seconds()
+	w.srv.mu.Lock()
+	for _, scope := range []string{"config", "endpoint"} {
+		nst, alive, _ := w.scopeLocked(scope)
+		res.StreamsAfter[scope] = nst
+		recs := w.srv.scopes[scope]
+		f := &fakeServer{deps: w.srv.deps}
+		if nst > before[scope] {
+			f.cur = &fakeStream{msgs: recs[nst-1].msgs, broken: !alive}
+		}
+		o := (&session{f: f}).evalLocked()
+		o.Streams = nst
+		o.Trace = []event{}
+		// keep the artefact small
+		o.Msgs = nil
+		if len(o.Missing) > 8 {
+			o.Missing = append(o.Missing[:8], fmt.Sprintf("... %d more", len(o.Missing)-8))
+		}
+		o.Deps, o.Srv = nil, nil
 		res.Clients[scope] = o
 	}
 	w.srv.mu.Unlock()
